@@ -225,7 +225,7 @@ func genVec(r *Rng, n int) ([]float64, string) {
 // GenDirect draws one direct-routine input.
 func GenDirect(r *Rng, maxn int) *In {
 	n := r.Range(1, maxn)
-	switch r.Pick([]int{14, 10, 12, 8, 6, 8, 10, 7, 7, 7, 7}) {
+	switch r.Pick([]int{14, 10, 12, 8, 6, 8, 16, 7, 7, 7, 7}) {
 	case 0, 1, 2:
 		k := []string{"chol", "ldl", "fpd"}[r.Intn(3)]
 		a, fam := genSym(r, n)
@@ -284,11 +284,15 @@ func GenDirect(r *Rng, maxn int) *In {
 		if k >= i {
 			k++
 		}
-		if sub >= 2 && r.Intn(3) != 0 { // banded shortcuts are used with adjacent indices
-			i = r.Intn(lim - 1)
-			k = i + 1
-			if r.Intn(4) == 0 {
-				i, k = k, i
+		if sub >= 2 && r.Intn(5) != 0 { // banded shortcuts: neighbours and next-to-neighbours hit every guard
+			d := []int{1, -1, 2, -2}[r.Intn(4)]
+			i = r.Intn(lim)
+			k = i + d
+			if k < 0 || k >= lim {
+				k = i - d
+			}
+			if k < 0 || k >= lim || k == i {
+				i, k = 0, 1
 			}
 		}
 		th := r.Float() * 6.3
